@@ -238,6 +238,97 @@ ALGOS4 = ["deny-overrides", "permit-overrides", "first-applicable", "no-such-alg
 OBL = [{"type": "require_mfa"}]
 
 
+def overlapping_sets(run: lib.Run) -> None:
+    """TWO evaluations of the same nested set tree overlapping on two threads (how an engine runs: every decision on a worker thread): the
+    first is parked INSIDE the nested set (a `rel` condition whose relationship backend waits), the second runs to completion.  The
+    result of the second — and of the first once released — is the documented combination, the same as when evaluated alone; through
+    `policyset.decide` called directly from two threads and through one `Guard`."""
+    import copy
+    import threading
+    from rbacx.core.engine import Guard
+    from rbacx.core.model import Action, Context, Resource, Subject
+    from rbacx.core.relctx import REL_CHECKER
+
+    class Backend:
+        def __init__(self):
+            self.entered, self.release = threading.Event(), threading.Event()
+
+        def check(self, subject, relation, resource, *, context=None):
+            if "slow" in str(subject) and not self.release.is_set():
+                self.entered.set()
+                self.release.wait(20)
+            return True
+
+    def rule(rid, effect, rel=False):
+        r = {"id": rid, "effect": effect, "actions": ["read"], "resource": {"type": "doc"}}
+        if rel:
+            r["condition"] = {"rel": "viewer"}
+        return r
+    proj = lambda raw: None if raw is None else (raw.get("decision"), raw.get("policy_id"), raw.get("last_rule_id") or raw.get("rule_id"))  # noqa: E731
+    for algo in gen.ALGOS:
+        for inner_effect, sibling_effect in (("deny", "permit"), ("permit", "deny"), ("permit", "permit")):
+            for order in ("nested-first", "sibling-first"):
+                nested = {"id": "nested", "algorithm": algo, "policies": [{"id": "inner", "algorithm": algo, "rules": [rule("inner-rule", inner_effect, rel=True)]}]}
+                sibling = {"id": "sibling", "algorithm": algo, "rules": [rule("sibling-rule", sibling_effect)]}
+                doc = {"algorithm": algo, "policies": [nested, sibling] if order == "nested-first" else [sibling, nested]}
+
+                def env(sid):
+                    return {"subject": {"id": sid, "roles": [], "attrs": {}}, "action": "read", "resource": {"type": "doc", "id": "1", "attrs": {}}, "context": {}}
+                for via in ("decide", "guard"):
+                    backend = Backend()
+                    alone = {}
+                    res: dict = {}
+                    if via == "decide":
+                        def call(sid, backend=backend, doc=doc):
+                            tok = REL_CHECKER.set(backend)
+                            try:
+                                return proj(rset.decide(doc, env(sid)))
+                            finally:
+                                REL_CHECKER.reset(tok)
+                    else:
+                        g = Guard(copy.deepcopy(doc), relationship_checker=backend)
+
+                        def call(sid, g=g):
+                            d = g.evaluate_sync(Subject(id=sid), Action("read"), Resource(type="doc", id="1"), Context())
+                            return (d.effect, d.policy_id, d.rule_id)
+                    backend.release.set()
+                    for sid in ("slow", "fast"):
+                        alone[sid] = call(sid)
+                    backend.release.clear()
+                    backend.entered.clear()
+
+                    def run_a():
+                        try:
+                            res["slow"] = call("slow")
+                        except Exception as e:  # noqa: BLE001
+                            res["slow"] = ("raised", type(e).__name__)
+                    ta = threading.Thread(target=run_a, daemon=True)
+                    ta.start()
+                    waited = 0
+                    while not backend.entered.is_set() and ta.is_alive() and waited < 2000:     # parked inside the nested set, or finished without entering it
+                        ta.join(0.005)
+                        waited += 1
+                    parked = backend.entered.is_set()
+                    try:
+                        res["fast"] = call("fast")
+                    except Exception as e:  # noqa: BLE001
+                        res["fast"] = ("raised", type(e).__name__)
+                    backend.release.set()
+                    ta.join(20)
+                    run.evaluations += 1
+                    run.count("overlapping-sets")
+                    run.nontrivial.add(f"overlap{algo}{inner_effect}{sibling_effect}{order}{via}")
+                    if not parked:
+                        continue      # the first-applicable sibling decided before the nested set was entered: nothing overlapped
+                    if res.get("fast") != alone["fast"] or res.get("slow") != alone["slow"]:
+                        run.spec_failures.append({"part": "overlapping sets", "policy": doc, "via": via, "algorithm": algo,
+                                                  "evaluated_alone": {k: list(v) if v else v for k, v in alone.items()},
+                                                  "overlapping": {k: list(v) if v else v for k, v in res.items()},
+                                                  "spec": "two evaluations of one nested set tree overlapping on two threads: the result differs from the "
+                                                          "documented combination (what the same request gets when evaluated alone)"})
+                        return
+
+
 def edited_in_place(run: lib.Run) -> None:
     """a document that has been evaluated, is then edited IN PLACE (a rule replaced at its index, an action list changed, a child set
     re-ordered) and evaluated again: the result is the one of the document as it stands — the same as for a fresh copy of it"""
@@ -662,15 +753,17 @@ def check(run: lib.Run, audit: dict) -> int:
     ok_py = ok_py and ok_pw
     run_cases(run, audit, scale=run.boost * (1 if ok_tr else 2))
     edited_in_place(run)
+    overlapping_sets(run)
     violations = []
     consts = audit["facts"]["consts"]
     if (run.disagreements or not ok_tr) and not run.spec_failures:
         run_cases(run, audit, scale=5)  # correspondence or the translation tie broke: widen the search for a failing input
     if run.spec_failures:
-        first = next((f for f in run.spec_failures if f.get("part") != "edited in place"), None)
+        first = next((f for f in run.spec_failures if f.get("part") not in ("edited in place", "overlapping sets")), None)
         c = shrink({**first, "consts": consts}) if first is not None else run.spec_failures[0]
         path = run.write_replay("spec", {"what": "implementation output contradicts the combining spec (Rbacx.Spec.tree)" if first is not None else
-                                         "the evaluators' result for a document depends on an earlier evaluation of the same (since edited) object", "case": c,
+                                         ("the evaluators' result for a document depends on an earlier evaluation of the same (since edited) object" if run.spec_failures[0].get("part") == "edited in place"
+                                          else "the evaluators' result depends on another evaluation running at the same time"), "case": c,
                                          "more": len(run.spec_failures) - 1})
         violations.append((path, True))
     elif not ok_tr:
@@ -708,6 +801,13 @@ def replay(run: lib.Run, audit: dict, path: str) -> int:
         edited_in_place(run)
         now = run.spec_failures[before:]
         print("now:", json.dumps(now[0], default=str)[:1500] if now else "every edited document is evaluated as it stands")
+        print("recorded:", json.dumps(c, default=str)[:1500])
+        return 1 if now else 0
+    if c.get("part") == "overlapping sets":
+        before = len(run.spec_failures)
+        overlapping_sets(run)
+        now = run.spec_failures[before:]
+        print("now:", json.dumps(now[0], default=str)[:1500] if now else "overlapping evaluations of a nested set tree each get the documented combination")
         print("recorded:", json.dumps(c, default=str)[:1500])
         return 1 if now else 0
     out = impl(c["policy"], c["env"])
